@@ -109,10 +109,10 @@ theorem run_stop_irrelevant (s : Nat) (bs : List Nat) : ∀ (m : M), m.pos + bs.
 
 /-- **every stop position ≥ len − 1 gives the same events**: the memory-mapped path passes
 `len − 1`, the reader path the length of the whole file. -/
-theorem parseBody_stop_irrelevant (bs : List Nat) (s : Nat) (h : bs.length ≤ s + 2) :
-    parseBody (some s) bs = parseBody none bs := by
+theorem parseBody_stop_irrelevant (bs : List Nat) (s : Nat) (nl : Bool) (h : bs.length ≤ s + 2) :
+    parseBody (some s) bs nl = parseBody none bs nl := by
   unfold parseBody
-  exact run_stop_irrelevant s bs {} (by simpa using h)
+  exact run_stop_irrelevant s bs (initM nl) (by simpa [initM] using h)
 
 /-! ### prefixes -/
 
@@ -192,14 +192,14 @@ theorem run_evs_prefix (stop : Option Nat) (bs : List Nat) : ∀ (m : M),
 
 /-- **truncation**: the events of a prefix of the input are — up to at most one last event, the
 one made from the cut token — a prefix of the events of the whole input. -/
-theorem prefix_events (stop : Option Nat) (bs1 bs2 : List Nat) :
-    ∃ c, c <+: evsOf (parseBody stop (bs1 ++ bs2)) ∧
-      (evsOf (parseBody stop bs1) = c ∨ ∃ x, evsOf (parseBody stop bs1) = c ++ [x]) := by
+theorem prefix_events (stop : Option Nat) (bs1 bs2 : List Nat) (nl : Bool) :
+    ∃ c, c <+: evsOf (parseBody stop (bs1 ++ bs2) nl) ∧
+      (evsOf (parseBody stop bs1 nl) = c ∨ ∃ x, evsOf (parseBody stop bs1 nl) = c ++ [x]) := by
   unfold parseBody
-  have h1 := run_append stop bs1 bs2 {}
-  have h2 := run_append stop bs1 [] {}
+  have h1 := run_append stop bs1 bs2 (initM nl)
+  have h2 := run_append stop bs1 [] (initM nl)
   simp only [List.append_nil] at h2
-  cases hm : runM stop {} bs1 with
+  cases hm : runM stop (initM nl) bs1 with
   | cont m' =>
     rw [hm] at h1 h2
     simp only at h1 h2
@@ -217,13 +217,13 @@ theorem prefix_events (stop : Option Nat) (bs1 bs2 : List Nat) :
 
 /-- a cut after a complete line (white space consumed, no vector value waiting for its id):
 the prefix's events are exactly a prefix of the whole input's events -/
-theorem prefix_events_at_boundary (stop : Option Nat) (bs1 bs2 : List Nat) (m' : M)
-    (hm : runM stop {} bs1 = .cont m') (hb : m'.first = []) (hst : m'.st ≠ .idTok) :
-    evsOf (parseBody stop bs1) <+: evsOf (parseBody stop (bs1 ++ bs2)) ∧
-    parseBody stop bs1 = .ok m'.evs.reverse := by
+theorem prefix_events_at_boundary (stop : Option Nat) (bs1 bs2 : List Nat) (nl : Bool) (m' : M)
+    (hm : runM stop (initM nl) bs1 = .cont m') (hb : m'.first = []) (hst : m'.st ≠ .idTok) :
+    evsOf (parseBody stop bs1 nl) <+: evsOf (parseBody stop (bs1 ++ bs2) nl) ∧
+    parseBody stop bs1 nl = .ok m'.evs.reverse := by
   unfold parseBody
-  have h1 := run_append stop bs1 bs2 {}
-  have h2 := run_append stop bs1 [] {}
+  have h1 := run_append stop bs1 bs2 (initM nl)
+  have h2 := run_append stop bs1 [] (initM nl)
   simp only [List.append_nil] at h2
   rw [hm] at h1 h2
   simp only at h1 h2
